@@ -138,6 +138,7 @@ static void do_op(int op, bool &ret, std::vector<u8_t> &out)
   { // the verdict is fine but every write to the output fails: whatever the operation reports, it must leave no residue
     MemFile in(fx.fileB);
     FILE *full = fopen("/dev/full", "wb");
+    setvbuf(full, NULL, _IONBF, 0);      // every write reaches the device at once: the failure is seen in the middle of the run, not at the final flush
     Settings st(-1, -1, true);
     {
       runcrypt rc(in.f, full, fx.keyB.data(), st, 2);
@@ -198,6 +199,7 @@ static void do_op(int op, bool &ret, std::vector<u8_t> &out)
   {
     MemFile in(fx.PB);
     FILE *full = fopen("/dev/full", "wb+");
+    setvbuf(full, NULL, _IONBF, 0);      // every write reaches the device at once: the failure is seen in the middle of the run, not at the final flush
     auto sd = fx.seed;
     sd.push_back(0);
     Settings st(2, 1, true);
